@@ -461,7 +461,8 @@ fn one_case(seed: u64, i: u64) -> CaseOut {
     } else {
         lines.push("exit".into());
     }
-    let script = lines.join("\n");
+    // (the commands reach the debugger as one string: separated by line ends, or by `;` - also behind an `eval`)
+    let script = lines.join(if i % 2 == 0 { "\n" } else { ";" });
 
     // ---- load-time snapshot, independent of the debugger: from_raw of the same image
     let raw = img.raw();
